@@ -2,7 +2,7 @@
 """Shared machinery of the checks: building (Coq development, extracted driver, Rust harness in
 two profiles, all from the current /repo working tree), running histories on the implementation
 and on the model, the proof audit, evidence and replay files."""
-import fcntl, hashlib, json, os, re, shutil, subprocess, sys, time
+import fcntl, hashlib, json, os, re, resource, shutil, subprocess, sys, time
 
 ROOT = os.path.dirname(os.path.dirname(os.path.abspath(__file__)))
 BUILD = os.path.join(ROOT, 'build')
@@ -103,6 +103,11 @@ def parse_obs_line(line):
     if line == '': return []
     return [g.split(' ') if g != '' else [] for g in line.split(';')]
 
+def _big_stack():
+    # the extracted model recurses over long lists (non tail-recursive List functions)
+    try: resource.setrlimit(resource.RLIMIT_STACK, (resource.RLIM_INFINITY, resource.RLIM_INFINITY))
+    except Exception: pass
+
 def _run_sharded(cmd_of, lines, tag, nshards=16):
     """run a line-oriented tool over `lines`, sharded across processes, preserving order"""
     w = workdir()
@@ -113,7 +118,7 @@ def _run_sharded(cmd_of, lines, tag, nshards=16):
         fi = os.path.join(w, f'{tag}.{i}.in'); fo = os.path.join(w, f'{tag}.{i}.out')
         with open(fi, 'w') as f:
             f.write('\n'.join(sh_lines) + ('\n' if sh_lines else ''))
-        procs.append((subprocess.Popen(cmd_of(fi, fo), stdout=subprocess.DEVNULL, stderr=subprocess.PIPE), fo, len(sh_lines)))
+        procs.append((subprocess.Popen(cmd_of(fi, fo), stdout=subprocess.DEVNULL, stderr=subprocess.PIPE, preexec_fn=_big_stack), fo, len(sh_lines)))
     outs = []
     for p, fo, cnt in procs:
         _, err = p.communicate(timeout=3000)
